@@ -911,6 +911,10 @@ func main() {
 			return effectOrder(repo, "pubsub/oneonone/channel.go", "Connect", "connectOrder", [][2]string{
 				{"lock", "c.muSubs.Lock()"}, {"subscribe", "PubSub().Subscribe("}, {"unlock", "c.muSubs.Unlock()"}})
 		}},
+		{"GenSubClose", func() string {
+			return effectOrder(repo, "events/events.go", "handleSubscriber", "subscriberCloseOrder", [][2]string{
+				{"drain", "sub.Out()"}, {"close", "sub.Close()"}, {"stopdrain", "close(closed)"}})
+		}},
 		{"GenMonitor", func() string {
 			return effectOrder(repo, "pubsub/oneonone/channel.go", "monitorTopic", "monitorTopicOrder", [][2]string{
 				{"next", "sub.Next("}, {"fromtarget", "msg.From() != p"}, {"emit", "c.emitter.Emit("}})
